@@ -493,6 +493,10 @@ def _eval_bits(e, env, nbits: int = NBITS_DEFAULT, consts=None) -> int:
     raise AnalysisError(f"leaf not an operand field or constant: {k}")
 
 
+class ForeignLeaf(Exception):
+    """the merged value of a field depends on something other than that field of the two operands"""
+
+
 def _eval_pick(e, env):
     """Evaluate `a or b`, `a and b`, `x if c else y`, `x is None`, `x is not None`, not — over env norm(leaf)->value."""
     if isinstance(e, ast.BoolOp):
@@ -522,7 +526,7 @@ def _eval_pick(e, env):
     k = norm(e)
     if k in env:
         return env[k]
-    raise AnalysisError(f"leaf not an operand field: {k}")
+    raise ForeignLeaf(k)
 
 
 def r6_4(ctx):
@@ -630,11 +634,14 @@ def r6_4(ctx):
             continue
         lk, rk = f"self.{fld}", f"{right}.{fld}"
         bad = []
-        for lv, rv in itertools.product((None, "L"), (None, "R")):
-            got = _eval_pick(e, {lk: lv, rk: rv})
-            want = rv if rv is not None else lv
-            if got != want:
-                bad.append(f"left={lv} right={rv} -> {got}, want {want}")
+        try:
+            for lv, rv in itertools.product((None, "L"), (None, "R")):
+                got = _eval_pick(e, {lk: lv, rk: rv})
+                want = rv if rv is not None else lv
+                if got != want:
+                    bad.append(f"left={lv} right={rv} -> {got}, want {want}")
+        except ForeignLeaf as fl:
+            bad.append(f"the pick depends on `{fl}`, which is neither {lk} nor {rk}: whether the right operand's value wins must depend only on whether it is set (e.g. an explicit `default` colour on the right must still override)")
         ctx.check(not bad, add.fq, f"{fld} = {short(e)}", f"{add.module.relpath}:{rt.store_stmts[fld].lineno}",
                   f"{fld}: right operand wins exactly where it specifies a value (4 cases)",
                   f"{fld} pick is not right-biased: " + "; ".join(bad))
@@ -1146,4 +1153,28 @@ def r6_8(ctx):
     memo_rule(ctx, "R6.8", ["style"], 4, only={"Style.__str__", "Style.__hash__", "Style.parse", "Style.normalize", "Style.get_html_style"})
 
 
-RULES = [r6_1, r6_2, r6_3, r6_4, r6_7, r6_5, r6_6, r6_8]
+def r6_9(ctx):
+    ctx.rule("R6.9", "colour names are normalised in every branch of Color.parse (sibling agreement): the name stored in the returned Color - which takes part in equality and is what str(style) prints - is the lower-cased, stripped spelling that Style.parse will read back, never the caller's original spelling")
+    f = ctx.repo.fn("color:Color.parse")
+    m = f.module
+    param = f.params[1]
+    # the normalised spelling: a name assigned from <param>.lower()/.strip() chains
+    normalised = set()
+    for x in walk_local(f.node):
+        if isinstance(x, ast.Assign) and len(x.targets) == 1 and isinstance(x.targets[0], ast.Name) and isinstance(x.value, ast.Call) and isinstance(x.value.func, ast.Attribute) and x.value.func.attr in ("lower", "strip", "casefold"):
+            chain_txt = norm(x.value)
+            if ".lower()" in chain_txt or ".casefold()" in chain_txt:
+                normalised.add(x.targets[0].id)
+    originals = {x.targets[0].id for x in walk_local(f.node) if isinstance(x, ast.Assign) and len(x.targets) == 1 and isinstance(x.targets[0], ast.Name) and norm(x.value) == param} | ({param} - normalised)
+    n = 0
+    for c in walk_local(f.node):
+        if isinstance(c, ast.Call) and norm(c.func) in ("cls", "Color") and c.args:
+            n += 1
+            a0 = c.args[0]
+            ok = isinstance(a0, ast.Name) and a0.id in normalised and a0.id not in originals
+            ctx.check(ok, f.fq, short(c), f"{m.relpath}:{c.lineno}", f"colour named `{norm(a0)}` (normalised spelling)",
+                      f"`{short(c)}` names the colour `{norm(a0)}`, not the lower-cased spelling the other branches use: Color('#FF0000') != Color('#ff0000') although they are the same colour, and str(style) no longer parses back to an equal style")
+    ctx.floor(n, 4, "Color constructions in Color.parse")
+
+
+RULES = [r6_1, r6_2, r6_3, r6_4, r6_7, r6_5, r6_6, r6_8, r6_9]
